@@ -165,6 +165,7 @@ def _vfsplit_cases(rng, n, prefix):
             dflt = rng.choice([p for p in range(lo, hi + 1)]) if k % 2 else lo
             vfs.append({"name": f"VF{j}", "disc": d, "lo": lo, "hi": hi, "dflt": dflt})
         req = [v["name"] for v in vfs if rng.random() < 0.7] if k % 4 == 3 else [v["name"] for v in vfs]
+        # (every interpolable sub-space has a master at the document default; at most one lacks an explicit variable font)
         out.append({"cid": f"{prefix}-sp{k}", "vfsplit": True, "lib": rng.choice(["ufoLib2", "defcon"]), "masters": masters, "vfs": vfs,
                     "req": req or [vfs[0]["name"]], "flavor": "tt" if k % 3 else "cff2"})
     return out
@@ -185,15 +186,37 @@ def _execute_vfsplit(case):
                "info": {"unitsPerEm": 1000, "ascender": 800, "descender": -200, "familyName": "Split", "styleName": f"D{d}P{p}",
                         "openTypeOS2VendorID": f"M{k:03d}"}}
         fam_masters.append({"loc": {"Weight": wght[p], "Italic": d}, "ufo": ufo, "name": f"m{k}"})
-    family = {"axes": [{"name": "Weight", "tag": "wght", "min": 400, "default": 400, "max": 700},
-                       {"name": "Italic", "tag": "ital", "values": [0, 1], "default": 0}],
-              "masters": fam_masters,
-              "variableFonts": [{"name": v["name"], "subsets": {"Weight": {"min": wght[v["lo"]], "max": wght[v["hi"]], "default": wght[v["dflt"]]},
-                                                               "Italic": {"value": v["disc"]}}} for v in case["vfs"]]}
+    discs = sorted({d for d, _ in case["masters"]})
+    axes = [{"name": "Weight", "tag": "wght", "min": 400, "default": 400, "max": 700}]
+    if len(discs) > 1:
+        axes.append({"name": "Italic", "tag": "ital", "values": discs, "default": 0})
+    else:
+        for m in fam_masters:
+            m["loc"].pop("Italic")
+    family = {"axes": axes, "masters": fam_masters,
+              "variableFonts": [{"name": v["name"], "subsets": dict({"Weight": {"min": wght[v["lo"]], "max": wght[v["hi"]], "default": wght[v["dflt"]]}},
+                                                                    **({"Italic": {"value": v["disc"]}} if len(discs) > 1 else {}))}
+                                for v in case["vfs"]]}
+    for v in family["variableFonts"]:
+        v["lib"] = {"public.fontInfo": {"openTypeNameDesigner": "vfsplit"}}     # (so that the info of the base master is compiled in)
     ds = dsbuild.build_designspace(family, case["lib"])
     ids = {id(s.font): s.name for s in ds.sources}
+    # designspaceLib semantics (environment): an interpolable sub-space for which the document names no variable font gets an
+    # implicit one spanning it, called "VF" for an in-memory document; asking for fonts by name leaves it out
+    vfs = list(case["vfs"])
+    implicit = [d for d in discs if not any(v["disc"] == d for v in vfs)]
+    for d in implicit:
+        vfs.append({"name": "VF", "disc": d, "lo": 0, "hi": 2, "dflt": 0})
+    named = len(case["req"]) < len(case["vfs"])
     rec = {"tid": case["cid"], "_acc": "vfsplit", "masters": [{"name": f"m{k}", "disc": d, "pos": p} for k, (d, p) in enumerate(case["masters"])],
-           "vfs": case["vfs"], "req": case["req"], "calls": [], "bases": [], "err": "", "_sig": [case["cid"]]}
+           "vfs": vfs, "req": list(case["req"]) + ([] if named else ["VF"] * bool(implicit)), "calls": [], "bases": [], "err": "", "_sig": [case["cid"]]}
+    # (domain: every requested variable font that has its default master has at least two sources -- varLib does not build a
+    #  variable font from one master)
+    for v in vfs:
+        if v["name"] in rec["req"]:
+            srcs = [p for d, p in case["masters"] if d == v["disc"] and v["lo"] <= p <= v["hi"]]
+            if v["dflt"] in srcs and len(srcs) < 2:
+                return [{"tid": case["cid"], "skip": True, "why": "a requested variable font has a single source"}]
     fn = ufo2ft.compileVariableTTFs if case["flavor"] == "tt" else ufo2ft.compileVariableCFF2s
     kw = {"useProductionNames": False}
     if len(case["req"]) < len(case["vfs"]):
@@ -257,12 +280,12 @@ def _struct_cff(f):
 def execute(case):
     import ufo2ft
 
+    if case.get("vfsplit"):
+        return _execute_vfsplit(case)
     if case.get("vfs"):
         from . import c10
 
         return c10.execute_vfs(case)
-    if case.get("vfsplit"):
-        return _execute_vfsplit(case)
     lib = case["lib"]
     nm = len(case["masters"])
     locs = [0, 8] if nm == 2 else [0, 4, 8]
@@ -324,6 +347,12 @@ def execute(case):
             evs.append({"ev": e["ev"], "name": e.get("name", ""), "gss": e["gss"]})
     rec["events"] = evs
     return [rec]
+
+
+def preclassify(rec, rep):
+    if rec.get("skip") is True:
+        rep.notes["skipped"] = rep.notes.get("skipped", 0) + 1
+        return "skip"
 
 
 def nontrivial(rec):
